@@ -243,9 +243,35 @@ def rule_colidx(facts):
     return r
 
 
+def rule_globroot(facts):
+    """Splitting a glob on '/' and dropping empty segments forgets what stood in front of the first segment: the URL scheme and bucket
+    for object stores, the root for local paths ('/data/*.csv' became 'data' relative to the current directory, so a multi-file scan read
+    other files or none). Sibling agreement over the FileSystem::glob_segments impls: each one that splits its argument also tests or
+    strips the argument's prefix (starts_with / strip_prefix / is_absolute / has_root on a value that comes from the argument)."""
+    r = RuleResult("C11-GLOBROOT", "every glob_segments implementation that splits the glob also consumes or tests the glob's prefix (scheme / filesystem root)", floor=3)
+    for rec in facts.fns_matching(lambda i: i.endswith("FileSystem>::glob_segments")):
+        fn = Fn(rec)
+        calls = fn.calls()
+        if not any(c.name.endswith("impl str>::split") for c in calls):
+            continue
+        pref = []
+        for c in calls:
+            if c.name.rsplit("::", 1)[-1] in ("starts_with", "strip_prefix", "is_absolute", "has_root") and c.args:
+                o = fn.origin(c.args[0], through_calls=("::deref", "::as_ref", "::as_str", "Path::new"), at=c.bb)
+                if o[0] == "arg":
+                    pref.append(c.name.rsplit("::", 1)[-1])
+        ok = bool(pref)
+        r.functions.add(fn.id)
+        r.inst({"fn": fn.id, "prefix_tests": sorted(set(pref))}, ok)
+        if not ok:
+            r.violate(fn.id, "glob-prefix-forgotten", "the glob is split into segments (empty ones dropped) without looking at its prefix: an absolute path is resolved "
+                      "relative to the current directory", rec["file"], rec["line"])
+    return r
+
+
 def run(ctx):
     facts = ctx["facts"]
-    return [rule_prune(facts), rule_frame(facts), rule_files(facts), rule_colidx(facts)]
+    return [rule_prune(facts), rule_frame(facts), rule_files(facts), rule_colidx(facts), rule_globroot(facts)]
 
 
 CLAIM = {
@@ -253,7 +279,8 @@ CLAIM = {
             "range test; (FRAME) write-set inclusion for ScanFilterPushdown (only appends to scan_filters); (FILES) provenance of the "
             "skip/step_by arguments in every multi-file scan. These make pushdown and file distribution conservative by construction for "
             "all inputs; value conversions of statistics are not decided. (COLIDX) the Parquet struct reader matches pushed-down filters to "
-            "column readers by column index, never by the position in the projection list. The range test of the pruner must also be evaluated in the order of the column's logical type (the constant's type), not of the signed physical statistics type.",
+            "column readers by column index, never by the position in the projection list. The range test of the pruner must also be evaluated in the order of the column's logical type (the constant's type), not of the signed physical statistics type."
+            " Plus GLOBROOT: every glob_segments implementation that splits the glob also tests or strips its prefix (an absolute local glob keeps its root).",
     "note": "trusted: rustc MIR; comparison orientation is read from the operands' field provenance (stats.min / stats.max / filter constant)",
     "technique": "static analysis: MIR edge-dominance + frame (write-set) + provenance rules (rustc_private driver)",
 }
